@@ -165,16 +165,22 @@ def _workloads(task, note):
     if task.get("canary", True):
         from framework.props import capacity
 
-        for h in (4, 16, 64):
+        for h in (4, 7, 16, 64, 128):
             for heur in ("min", "max", "split_low", "mid"):
                 for calg in ("bc", "shaving"):
-                    d = h - 2 if heur != "mid" else (h - 2) // 2 * 2
-                    ctx = {"stack_case": [h, d, heur, calg]}
-                    rec = capacity.stack_case(h, d, heur, calg)
-                    if rec and rec["outcome"] == "canary":
-                        note(ctx, "red zone written: " + rec["detail"])
-                    counts["canary_cases"] = counts.get("canary_cases", 0) + 1
-                    note(ctx)
+                    for d in (h - 3, h - 2, h - 1, h):
+                        if d < 1 or (heur == "mid" and d % 2):
+                            continue
+                        ctx = {"stack_case": [h, d, heur, calg]}
+                        progress.mark(ctx)
+                        rec = capacity.stack_case(h, d, heur, calg)
+                        if rec and rec["outcome"] == "canary":
+                            note(ctx, "red zone written: " + rec["detail"])
+                        elif rec and rec.get("raised") and "IndexError" in rec["raised"] and \
+                                "stack is full" not in rec["raised"]:
+                            note(ctx, "search at depth %d with height %d: %s" % (d, h, rec["raised"]))
+                        counts["canary_cases"] = counts.get("canary_cases", 0) + 1
+                        note(ctx)
     return counts
 
 
